@@ -32,7 +32,7 @@ RespSame(e, a, b) ==
                            /\ \A i \in DOMAIN a.pages : i \in DOMAIN b.pages =>
                                  SeqSame(a.pages[i].items, b.pages[i].items) /\ OptKeySame(a.pages[i].lek, b.pages[i].lek)
        [] e.op = "GetItem" -> OptSame(a.item, b.item)
-       [] e.op \in {"UpdateItem", "DeleteItem", "PutItem"} -> OptSame(a.attrs, b.attrs) /\ OptSame(a.ccfitem, b.ccfitem)
+       [] e.op \in {"UpdateItem", "DeleteItem", "PutItem"} -> OptSame(a.attrs, b.attrs)   \* not ccfitem: SDK v1.40 cannot request it
        [] e.op \in {"DescribeTable", "CreateTable", "AddTable"} -> a.desc = b.desc
        [] e.op = "BatchWrite" -> Len(a.unproc) = Len(b.unproc)
        [] e.op = "BatchGet" -> Len(a.responses) = Len(b.responses) /\ Len(a.unprockeys) = Len(b.unprockeys)
